@@ -394,6 +394,73 @@ def run(chk, repo, tier):
                           f'statement itself: False)', line=comp.lineno,
                           witness='A = 1; B = A + 1; Y = A + 2 edited to Y = 2; Z = 2*B: A is removed although B still uses it')
 
+    # ---------------------------------------------------------------- D8 liveness transfer order
+    from sa import lints as _l
+    st_ = _l.self_test()
+    if not all(st_.values()):
+        raise AnalysisError(f'lint self-test failed: {st_}')
+    D8 = chk.rule('D8', 'symbol tracking in backward scans: the defined symbol is removed before the used symbols are added '
+                        '(a statement may use the symbol it defines)', floor=1)
+    nscan = 0
+    for f in repo.all_funcs():
+        if f.module.name not in ('pharmpy.model.statements', 'pharmpy.modeling.expressions', 'pharmpy.modeling.common'):
+            continue
+        back = [L for L in walk_no_nested(f.node) if isinstance(L, ast.For) and isinstance(L.iter, ast.Call)
+                and (dotted(L.iter.func) == 'reversed' or (dotted(L.iter.func) == 'range' and len(L.iter.args) == 3))]
+        nscan += len(back)
+        for n, txt in _l.gen_after_kill(f.node):
+            chk.violation(D8, f.module.rel, f.qualname, txt,
+                          'the tracked set is updated as (set | used) - {defined}: for V = V*(1+THETA) the symbol V is used and '
+                          'defined by the same statement and is dropped, so its earlier definitions are skipped',
+                          line=n.lineno,
+                          witness='TVV = THETA(2)*WGT; IF (APGR.LT.5) TVV = TVV*(1+THETA(3)); V = TVV*EXP(ETA(2)): '
+                                  'full_expression(V) still contains TVV')
+    chk.instance(D8, f'{nscan} backward scans over statements examined for set-tracking updates', n=max(nscan, 1))
+    if nscan == 0:
+        raise AnalysisError('D8: no backward scan found')
+
+    # ---------------------------------------------------------------- D9 dependencies = backward reaching definitions
+    D9 = chk.rule('D9', 'Statements.dependencies walks the statements in descending index order and replaces a symbol only by '
+                        'a definition of a symbol that is still wanted', floor=2)
+    dep = stc.methods.get('dependencies')
+    if dep is None:
+        raise AnalysisError('Statements.dependencies not found')
+    res_names = {n.value.id for n in walk_no_nested(dep.node) if isinstance(n, ast.Return) and isinstance(n.value, ast.Name)}
+    loops = [L for L in walk_no_nested(dep.node) if isinstance(L, ast.For) and any(
+        isinstance(a, (ast.Assign, ast.AugAssign)) and any(isinstance(t, ast.Name) and t.id in res_names
+                                                          for t in (a.targets if isinstance(a, ast.Assign) else [a.target]))
+        for a in ast.walk(L))]
+    if not loops or not res_names:
+        raise AnalysisError('D9: the loop that accumulates the dependencies was not recognised')
+    for L in loops:
+        it = L.iter
+        desc = False
+        if isinstance(it, ast.Call):
+            fn = dotted(it.func) or ''
+            desc = fn == 'reversed' or (fn == 'range' and len(it.args) == 3 and isinstance(it.args[2], ast.UnaryOp)) \
+                or (fn == 'sorted' and any(k.arg == 'reverse' and isinstance(k.value, ast.Constant) and k.value.value is True
+                                           for k in it.keywords))
+        chk.instance(D9, f'dependencies: `for {unparse(L.target)} in {unparse(it)[:60]}` descending statement order: {desc}')
+        if not desc:
+            chk.violation(D9, stc.module.rel, dep.qualname, f'for {unparse(L.target)} in {unparse(it)}',
+                          'definitions are not applied from the closest to the farthest: a symbol that was already resolved '
+                          'can be re-introduced or removed by a definition that does not reach the statement',
+                          line=L.lineno,
+                          witness='U = A; A = 2; G = A; D = U + G: dependencies(D) is empty although D depends on the incoming A')
+        rv = next(iter(res_names))
+        kills = [a for a in ast.walk(L) if isinstance(a, (ast.Assign, ast.AugAssign))
+                 and any(isinstance(t, ast.Name) and t.id == rv for t in (a.targets if isinstance(a, ast.Assign) else [a.target]))
+                 and any(isinstance(x, ast.Attribute) and x.attr == 'symbol' for x in ast.walk(a.value))]
+        guarded = all(any(isinstance(I, ast.If) and any(k is x for x in ast.walk(I)) and isinstance(I.test, ast.Compare)
+                          and isinstance(I.test.ops[0], ast.In) and unparse(I.test.comparators[0]) == rv
+                          for I in ast.walk(L)) for k in kills) if kills else False
+        chk.instance(D9, f'dependencies: replacement of a defined symbol guarded by `symbol in {rv}`: {guarded}')
+        if not guarded:
+            chk.violation(D9, stc.module.rel, dep.qualname, f'update of {rv} without `statement.symbol in {rv}`',
+                          'the right-hand side of a definition is added although its symbol is not (or no longer) wanted',
+                          line=L.lineno,
+                          witness='X = W; X = 2; Z = X: dependencies(Z) reports W')
+
 
 def _parent(root, node):
     for p in ast.walk(root):
